@@ -352,15 +352,15 @@ pub fn run(ctx: &Ctx) {
         ctx,
         "isolation_router",
         &m,
-        ExploreOpts { max_depth: ctx.tier.pick(3, 4), wall_cap: Duration::from_secs(ctx.tier.pick(40, 1200)), state_cap: 2_000_000, dedup: true },
+        ExploreOpts { max_depth: ctx.tier.pick(3, 4), wall_cap: Duration::from_secs(ctx.tier.pick(400, 1200)), state_cap: 2_000_000, dedup: true },
     );
-    explore::audit_dedup(ctx, "isolation_router", &m, &res, 2, Duration::from_secs(ctx.tier.pick(30, 300)));
+    explore::audit_dedup(ctx, "isolation_router", &m, &res, 2, Duration::from_secs(ctx.tier.pick(300, 300)));
     for (name, plain, normal_mode) in [("isolation_router_plain", true, false), ("isolation_router_normal", false, true)] {
         explore::explore(
             ctx,
             name,
             &Router { n: 3, plain, normal_mode },
-            ExploreOpts { max_depth: ctx.tier.pick(2, 3), wall_cap: Duration::from_secs(ctx.tier.pick(40, 600)), state_cap: 2_000_000, dedup: true },
+            ExploreOpts { max_depth: ctx.tier.pick(2, 3), wall_cap: Duration::from_secs(ctx.tier.pick(400, 600)), state_cap: 2_000_000, dedup: true },
         );
     }
     if ctx.tier == Tier::Thorough {
@@ -374,7 +374,7 @@ pub fn run(ctx: &Ctx) {
             ctx,
             &name,
             &model,
-            ExploreOpts { max_depth: if name.ends_with("switch") { ctx.tier.pick(3, 4) } else { depth }, wall_cap: Duration::from_secs(ctx.tier.pick(40, 1200)), state_cap: 2_000_000, dedup: true },
+            ExploreOpts { max_depth: if name.ends_with("switch") { ctx.tier.pick(3, 4) } else { depth }, wall_cap: Duration::from_secs(ctx.tier.pick(400, 1200)), state_cap: 2_000_000, dedup: true },
         );
     }
     let mut outs = vec![];
